@@ -1467,6 +1467,6 @@ pub fn gen_num_literal(r: &mut Rng) -> String {
         8 => format!("{}{}e{}", sign, 1 + r.below(9), *r.pick(&[-324i32, -323, -322, -308, -307, 307, 308, 309, 400, -400, 2147483647, -2147483647, 22, 23, -22, -23])),
         9 => { let z = r.below(330); let n = 1 + r.below(20); format!("{}0.{}{}", sign, "0".repeat(z), digits(r, 10, n)) }
         10 => { let a = 1 + r.below(30); let b = 1 + r.below(12); let x = digits(r, 10, a); let y = digits(r, 10, b); format!("{}{}e{}", sign, x, y) }
-        _ => r.pick(&["1e21", "5e-324", "1e16", "1e-7", "1e3", "1.7976931348623157e308", "1.7976931348623157081452742373e308", "1.7976931348623159e308", "2e308", "4.9e-324", "2.4e-324", "2.5e-324", "0e999999999999", "1e-999999999999", "0.0e5", "00", "-0", "1E5", "1.0E+5", "9007199254740993", "9007199254740993.0", "18446744073709551615", "18446744073709551616", "-9223372036854775808", "-9223372036854775809", "#x-8000000000000000", "#xFFFFFFFFFFFFFFFF", "#x10000000000000000", "#b1e1", "#x1e1", "#d1e1", "#o18", "#b12", "#xg", "1.5e", "1.e5", ".5", "1..5", "1e5.5", "1e5e5", "123456789012345678901234567890", "0.1", "0.2", "0.3", "179769313486231570000000000000000000000000000000000000000000000000000000000000000000000000000000000000000000000000000000000000000000000000000000000000000000000000000000000000000000000000000000000000000000000000000000000000000000000000000000000000000000000000000000000000000000000000000000000000000000000"]).to_string(),
+        _ => r.pick(&["1e21", "5e-324", "1e16", "1e-7", "1e3", "1.7976931348623157e308", "1.7976931348623157081452742373e308", "1.7976931348623158e308", "1.7976931348623159e308", "2e308", "4.9e-324", "2.4e-324", "2.5e-324", "0e999999999999", "1e-999999999999", "0.0e5", "00", "-0", "1E5", "1.0E+5", "9007199254740993", "9007199254740993.0", "18446744073709551615", "18446744073709551616", "-9223372036854775808", "-9223372036854775809", "#x-8000000000000000", "#xFFFFFFFFFFFFFFFF", "#x10000000000000000", "#b1e1", "#x1e1", "#d1e1", "#o18", "#b12", "#xg", "1.5e", "1.e5", ".5", "1..5", "1e5.5", "1e5e5", "123456789012345678901234567890", "0.1", "0.2", "0.3", "179769313486231570000000000000000000000000000000000000000000000000000000000000000000000000000000000000000000000000000000000000000000000000000000000000000000000000000000000000000000000000000000000000000000000000000000000000000000000000000000000000000000000000000000000000000000000000000000000000000000000"]).to_string(),
     }
 }
